@@ -141,7 +141,7 @@ func printFuncResult(r *FuncResult, verbose bool, dump string) {
 	}
 	fmt.Printf("== %s: %d/%d obligations discharged, %d paths, gen %.2fs %s\n", r.Func, okc, len(r.Obligations), r.Paths, r.GenSeconds, r.Aborted)
 	for _, d := range r.Obligations {
-		if verbose || !d.ok() {
+		if verbose || !d.ok() || d.Res.Seconds > 2 {
 			fmt.Printf("   [%s] %-7s %s  (%s, %d nodes, %s) %s\n", map[bool]string{true: "ok", false: "FAIL"}[d.ok()], d.Res.Status, d.Ob.Name, d.Ob.Pos, d.Size, strings.Join(d.Res.Tried, " "), d.Ob.Text)
 			if !d.ok() && d.Res.Status == "sat" && len(d.Res.Values) > 0 {
 				var ks []string
